@@ -159,7 +159,7 @@ def clearsMark (t : Terminal) : Function → Bool
 def foldCmd : List Function → Terminal → Bool → Option (Terminal × Bool)
   | [], t, nt => some (t, nt)
   | f :: fs, t, nt =>
-    if coveredEdit f && TInv t then foldCmd fs (editSpec t f) (nt || f != .ed .savedLines) else none
+    if coveredEdit f then foldCmd fs (editSpec t f) (nt || f != .ed .savedLines) else none
 
 def checkStep (ev : StepEv) : List Verdict :=
   if ev.kind == .resize || ev.funs.isEmpty then [] else
